@@ -162,9 +162,10 @@ func c12HoleKinds(t []string) []byte {
 // c12Programs returns the token lists of all programs of the core grammar up
 // to the given depth (1 or 2): at each template one hole at a time is
 // explored with every depth-1 expansion (words for W holes) while the other
-// holes hold their default atom. With coreOnly the statements nested at
-// depth 2 are restricted to c12CoreSubs.
-func c12Programs(depth int, coreOnly bool) [][]string {
+// holes hold their default atom. subs selects the statements nested at depth
+// 2: 0 = only c12CoreSubs, 1 = every depth-1 program whose word holes hold
+// the default word, 2 = every depth-1 program.
+func c12Programs(depth int, subs int) [][]string {
 	seen := map[string]bool{}
 	var out [][]string
 	add := func(p []string) {
@@ -176,10 +177,12 @@ func c12Programs(depth int, coreOnly bool) [][]string {
 	}
 	// depth 1: S holes = "a", W holes explored with every word
 	var d1 [][]string
+	defaultWords := map[string]bool{}
 	for _, t := range c12Templates {
 		kinds := c12HoleKinds(t)
 		p := c12Expand(t, -1, nil)
 		add(p)
+		defaultWords[strings.Join(p, " ")] = true
 		for hi, k := range kinds {
 			if k == 'W' {
 				for _, w := range c12Words {
@@ -199,7 +202,7 @@ func c12Programs(depth int, coreOnly bool) [][]string {
 				continue
 			}
 			for _, sub := range d1 {
-				if coreOnly && !c12CoreSubs[strings.Join(sub, " ")] {
+				if k := strings.Join(sub, " "); (subs == 0 && !c12CoreSubs[k]) || (subs == 1 && !defaultWords[k] && !c12CoreSubs[k]) {
 					continue
 				}
 				add(c12Expand(t, hi, sub))
